@@ -115,8 +115,8 @@ class Axis(GetSetDelAttrMixin, AbstractAxis):
     def values(self, values):
         " init or update axis values, with size check in the second case"
         values = _check_axis_values(values)
-        if self._values.size != values.size:
-            raise ValueError("Invalid size. Expected: {}. Got: {}".format(self._values.size, values.size))
+        if self.size != values.size:
+            raise ValueError("Invalid size. Expected: {}. Got: {}".format(self.size, values.size))
         self._values = values
         self._monotonic = None
 
@@ -179,7 +179,7 @@ class Axis(GetSetDelAttrMixin, AbstractAxis):
         >>> a.values
         array(['a', 2.0, 3.0], dtype=object)
         """
-        values = _maybe_cast_type(self._values, value)
+        values = _maybe_cast_type(self.values, value)
 
         # now can proceed to asignment (a refused assignment leaves the axis as it was)
         values[item] = value
@@ -204,7 +204,7 @@ class Axis(GetSetDelAttrMixin, AbstractAxis):
         -------
         subaxis : Axis instance
         """
-        values = self._values.take(indices, mode=mode)
+        values = self.values.take(indices, mode=mode)
         newaxis = Axis(values, self.name, tol=self.tol)
         newaxis.attrs.update(self.attrs)
         return newaxis
